@@ -193,7 +193,9 @@ impl VM {
             println!("{:16}= {:?}", "Frames", self.frames);
         }
 
-        // reset some state
+        // reset some state (an earlier run may have ended half-way with an error)
+        self.stack.clear();
+        self.frames.truncate(1);
         self.instructions = code.instructions;
         self.ip = 0;
         self.bp = 0;
